@@ -35,6 +35,9 @@ def run(ctx):
         cosmos = [("EdS", LambdaCDM(H0=70, Om0=1.0, Ode0=0.0, Tcmb0=0)), ("flat", FlatLambdaCDM(H0=70, Om0=0.3, Tcmb0=0)), ("flat-rad", Planck15),
                   ("open", LambdaCDM(H0=70, Om0=0.3, Ode0=0.0, Tcmb0=0)), ("open-L", LambdaCDM(H0=70, Om0=0.3, Ode0=0.5, Tcmb0=0)),
                   ("closed", LambdaCDM(H0=70, Om0=0.4, Ode0=0.8, Tcmb0=0))]
+        # flat LCDM written as a generic LambdaCDM(Om0, Ode0 = 1 - Om0): Ok0 is then a rounding residue (0, +-1.1e-16), not an exact 0
+        for om_, ol_ in ((0.307, 0.693), (0.18, 0.82), (0.42, 0.58), (0.25, 0.75)):
+            cosmos.append(("flat", LambdaCDM(H0=70, Om0=om_, Ode0=ol_, Tcmb0=0)))
         for _ in range(0 if quick else 8):
             tc = r.choice([0, 2.7])
             cosmos.append(("random-flat" if tc == 0 else "random-flat-rad", FlatLambdaCDM(H0=r.uniform(55, 80), Om0=r.uniform(0.15, 0.6), Tcmb0=tc)))
@@ -93,6 +96,10 @@ def run(ctx):
                 # regenerated Carroll closed forms
                 if mname == "Carroll1992":
                     for meth in ("_d_plus", "growth_factor"):
+                        if "tree" not in comp.get(f"Carroll1992_{meth}", {}):
+                            if not any(b.get("what", "").endswith(f"Carroll1992_{meth}") for b in out["broken"]):
+                                out["broken"].append({"kind": "translator", "what": f"no generated term for Carroll1992_{meth}"})
+                            continue
                         t = tup(comp[f"Carroll1992_{meth}"]["tree"])
                         got = np.array([float(getattr(m, meth)(z)) for z in zs])
                         env = auto_env(t, m, args={"z": zs})
